@@ -1538,9 +1538,15 @@ class StateEngine(object):
 
                             """
                             Tidy up self.branch_metadata for current execution_arn
-                            before republishing the Task state event.
+                            before republishing the state event. This only
+                            applies when the state being retried is itself a
+                            Parallel or Map state, whose branches have been
+                            terminated. Retrying a state *inside* a branch
+                            must leave the results and held events of its
+                            sibling branches alone.
                             """
-                            if execution_arn in self.branch_metadata:
+                            if (execution_arn in self.branch_metadata and
+                                state.get("Type") in ("Parallel", "Map")):
                                 self.check_pending_results(execution_arn)
 
                             """
